@@ -927,6 +927,66 @@ pub struct Emit {
     pub n: u64,
 }
 
+// ---- watchdog: a hang or livelock of the code under test becomes a reported failing input
+
+static PROGRESS: std::sync::atomic::AtomicU64 = std::sync::atomic::AtomicU64::new(0);
+static CURRENT: Mutex<String> = Mutex::new(String::new());
+
+/// Says what the harness is about to run (cheap: the closure only builds a short description).
+/// Counts as progress.
+pub fn heartbeat(desc: impl FnOnce() -> String) {
+    *CURRENT.lock().unwrap() = desc();
+    PROGRESS.fetch_add(1, std::sync::atomic::Ordering::Relaxed);
+}
+
+/// Standard output shared between the suites and the watchdog.
+#[derive(Clone)]
+pub struct SharedOut(pub Arc<Mutex<std::io::BufWriter<std::io::Stdout>>>);
+
+impl std::io::Write for SharedOut {
+    fn write(&mut self, buf: &[u8]) -> std::io::Result<usize> {
+        PROGRESS.fetch_add(1, std::sync::atomic::Ordering::Relaxed);
+        self.0.lock().unwrap().write(buf)
+    }
+    fn flush(&mut self) -> std::io::Result<()> {
+        self.0.lock().unwrap().flush()
+    }
+}
+
+/// Starts the watchdog thread: when neither a record nor a heartbeat has happened for `secs`
+/// seconds, it emits a failed predicate naming what was running and ends the process (the
+/// records written so far stay valid).
+pub fn start_watchdog(out: SharedOut, secs: u64) {
+    std::thread::spawn(move || {
+        use std::io::Write as _;
+        let mut last = PROGRESS.load(std::sync::atomic::Ordering::Relaxed);
+        let mut idle = 0u64;
+        loop {
+            std::thread::sleep(Duration::from_secs(1));
+            let now = PROGRESS.load(std::sync::atomic::Ordering::Relaxed);
+            if now != last {
+                last = now;
+                idle = 0;
+                continue;
+            }
+            idle += 1;
+            if idle >= secs {
+                let cur = CURRENT.lock().map(|c| c.clone()).unwrap_or_default();
+                let desc = if cur.is_empty() { "(the case after the last record)".to_string() } else { cur };
+                let mut o = out.0.lock().unwrap_or_else(|e| e.into_inner());
+                let _ = writeln!(
+                    o,
+                    "PRED\t{}\tFAIL:no progress for {} s: hang or livelock in the code under test\thang",
+                    desc.replace(['\t', '\n'], " "),
+                    secs
+                );
+                let _ = o.flush();
+                std::process::exit(0);
+            }
+        }
+    });
+}
+
 impl Emit {
     /// One case: the protocol line for the model, the implementation's canonical output, the
     /// verdict of the implementation-side predicate (`ok` or `FAIL:<why>`), a class key for the
